@@ -10,11 +10,14 @@ published stream format):
     constant at the boundary sizes; then the sd blob is read back from disk, loaded with the real loader,
     and the data blobs are decrypted in descriptor order with the real path (StreamDownloader.decrypt_blob
     -> AbstractBlob.decrypt -> decrypt_blob_bytes) and with the reference.
-(b) every tampering from the design's list of a valid 1-, 2- and 3-data-blob descriptor, written as a
-    proper blob (named by the SHA-384 of the tampered bytes) and fed to the real loader
-    StreamDescriptor.from_stream_descriptor_blob; the reference validator decides (leniently: spelling-only
-    edits and uncommitted material are excluded) whether the blob is inconsistent; every inconsistent
-    one must be refused.
+(b) every tampering from the design's list of a valid 1-, 2- and 3-data-blob descriptor (built by the
+    reference publisher and compared byte for byte with what the real publisher emits for the same input),
+    written as a proper blob (named by the SHA-384 of the tampered bytes) and fed to the real loader
+    StreamDescriptor.from_stream_descriptor_blob (-> _from_stream_descriptor_blob in an executor job); the
+    reference validator decides (leniently: spelling-only edits and uncommitted material are excluded)
+    whether the blob is inconsistent; every inconsistent one must be refused.  Structural edits (order,
+    numbering, terminator) are tried with the original stream_hash and with a stream_hash recomputed by the
+    reference, so that the structural inconsistency is the only one.
 (c) sanitize_file_name, the ManagedStream.suggested_file_name path and the second sanitising that
     save_file applies, for every string up to length L over a hostile alphabet, the reserved DOS names,
     and real publishes of files that carry hostile (but legal on POSIX) names.
@@ -35,6 +38,7 @@ TWO_MIB = 2 * 2 ** 20          # the bound the statement names (independent of t
 SCALED_M = 64
 
 PATTERNS = ('zero', 'counter', 'ff')
+EXTRA_PATTERNS = ('chunk-periodic', 'hashed')     # thorough only
 GENS = ('zero', 'counter', 'hashed')          # + 'default' (os.urandom seam) as a one-factor sweep
 
 # (c) alphabet: the design's ten symbols + newline ('$' matches before a trailing newline) + DEL (tallied)
@@ -137,6 +141,12 @@ def content(pattern, size):
         return b'\xff' * size
     if pattern == 'counter':
         return (bytes(range(256)) * (size // 256 + 1))[:size]
+    if pattern == 'hashed':
+        out, n = [], 0
+        while 32 * n < size:
+            out.append(hashlib.sha256(b'content:%d' % n).digest())
+            n += 1
+        return b''.join(out)[:size]
     raise ValueError(pattern)
 
 
@@ -179,15 +189,15 @@ def publish_case(case, scratch):
     from refs import stream_ref as ref
     import lbry.stream.descriptor as descmod
     from lbry.stream.descriptor import StreamDescriptor
-    from lbry.stream.downloader import StreamDownloader
-    from lbry.stream.managed_stream import ManagedStream
-    from lbry.blob.blob_file import BlobFile
-    import types
 
     M, size, pattern, gen, name, seed = (case['M'], case['size'], case['pattern'], case['gen'], case['name'],
                                          case.get('seed', 0))
     bound = M if M is not None else TWO_MIB
-    data = content(pattern, size)
+    if pattern == 'chunk-periodic':      # period = plaintext bytes per blob: every full chunk is the same text
+        data = (bytes(range(1, 256)) * (bound // 255 + 1))[:bound - 1]
+        data = (data * (size // len(data) + 1))[:size]
+    else:
+        data = content(pattern, size)
     work = os.path.join(scratch, 'case')
     if os.path.exists(work):
         shutil.rmtree(work)
@@ -216,7 +226,8 @@ def publish_case(case, scratch):
 
     def bad(kind, what, **extra):
         sig = {'part': 'a', 'kind': kind}
-        sig.update(cls)
+        if kind == 'publish-raises':
+            sig.update(cls)      # the input class matters only for a refusal to publish
         sig.update(extra)
         problems.append((sig, f'{what} [M={bound} size={size} pattern={pattern} gen={gen} name={name!r}]'))
 
@@ -231,161 +242,199 @@ def publish_case(case, scratch):
                     desc = loop.run(StreamDescriptor.create_stream(loop, blob_dir, file_path, key=key,
                                                                    iv_generator=ivgen))
                 except Exception as e:   # noqa - judged below
-                    bad('publish-raises', f'create_stream raised {type(e).__name__}: {str(e)[:80]}',
-                        exc=type(e).__name__)
+                    bad('publish-raises', f'create_stream raised {type(e).__name__}: '
+                                          f'{str(e).replace(blob_dir, "<blob_dir>")[:60]}', exc=type(e).__name__)
                     obs['publish'] = type(e).__name__
                     return problems, obs
             finally:
                 descmod.os = real_os
             obs['publish'] = 'ok'
             obs['executor_jobs'] = loop._job_counter
-            if loop.pop_exceptions():
-                obs['loop_exceptions'] = True
-
-            # ---- what is on disk -----------------------------------------------------------
-            on_disk = {}
-            for fn in sorted(os.listdir(blob_dir)):
-                with open(os.path.join(blob_dir, fn), 'rb') as f:
-                    on_disk[fn] = f.read()
-            for fn, raw in on_disk.items():
-                if sha384(raw) != fn:
-                    bad('blob-name', f'file {fn[:12]}.. in the blob directory is not named by the SHA-384 of its bytes')
-            sd_hash = desc.sd_hash
-            obs['sd_hash'] = sd_hash
-            if not isinstance(sd_hash, str) or sd_hash not in on_disk:
-                bad('sd-blob-missing', f'no blob file for sd_hash {str(sd_hash)[:12]}..')
-                return problems, obs
-            sd_bytes = on_disk[sd_hash]
-            if ref.sd_hash(sd_bytes) != sd_hash:
-                bad('sd-hash', 'descriptor.sd_hash is not the SHA-384 of the sd blob bytes')
-            why = ref.inconsistencies(sd_bytes, lenient=False)
-            for w in why:
-                bad('descriptor-inconsistent', f'published sd blob is inconsistent: {w}', reason=reason_class(w))
-            try:
-                ref.normal_form(ref.parse_manifest(sd_bytes), lenient=False)
-            except ref.Malformed:
-                return problems, obs
-            decoded = ref.parse_manifest(sd_bytes)
-            if decoded['stream_hash'] != desc.stream_hash:
-                bad('stream-hash', 'descriptor.stream_hash differs from the stream_hash inside the sd blob')
-            if ref.stream_hash_of(decoded) != desc.stream_hash:
-                bad('stream-hash', 'descriptor.stream_hash is not the reference hash of the sd blob content')
-            if desc.calculate_sd_hash() != sd_hash:
-                bad('sd-hash', 'calculate_sd_hash() differs from sd_hash')
-            try:
-                if bytes.fromhex(decoded['stream_name']).decode() != name:
-                    bad('stream-name', 'stream_name in the sd blob is not the published file name')
-            except ValueError:
-                bad('stream-name', 'stream_name in the sd blob does not decode')
-            blobs = decoded['blobs']
-            nblobs = len(blobs) - 1
-            obs['nblobs'] = nblobs
-            obs['lengths'] = [b['length'] for b in blobs]
-            if nblobs < 1:
-                bad('no-data-blob', 'non-empty file published without a data blob')
-            # in-memory descriptor == sd blob content
-            mem = [b.as_dict() for b in desc.blobs]
-            if mem != blobs:
-                bad('descriptor-object-differs', 'in-memory descriptor blobs differ from the sd blob content')
-
-            # ---- load it back with the real loader ----------------------------------------
-            sd_blob = BlobFile(loop, sd_hash, len(sd_bytes), blob_directory=blob_dir)
-            try:
-                loaded = loop.run(StreamDescriptor.from_stream_descriptor_blob(loop, blob_dir, sd_blob))
-            except Exception as e:   # noqa
-                bad('valid-descriptor-refused', f'loader refused the just published descriptor: {type(e).__name__}',
-                    exc=type(e).__name__)
-                loaded = None
-            finally:
-                sd_blob.close()
-            if loaded is not None:
-                if (loaded.stream_name, loaded.key, loaded.stream_hash, loaded.sd_hash,
-                        [b.as_dict() for b in loaded.blobs]) != \
-                        (name, decoded['key'], decoded['stream_hash'], sd_hash, blobs):
-                    bad('loaded-descriptor-differs', 'loaded descriptor differs from the sd blob content')
-
-            # ---- data blobs in descriptor order --------------------------------------------
-            try:
-                key_bytes = bytes.fromhex(decoded['key'])
-            except ValueError:
-                bad('key-encoding', 'key in sd blob is not hex')
-                return problems, obs
-            stub = types.SimpleNamespace(descriptor=loaded if loaded is not None else desc)
-            infos = (loaded if loaded is not None else desc).blobs
-            plain_ref, plain_real = [], []
-            ok_ref = ok_real = True
-            for i, b in enumerate(blobs[:-1]):
-                bh, ln = b['blob_hash'], b['length']
-                raw = on_disk.get(bh)
-                if raw is None:
-                    bad('blob-missing', f'data blob {i} named in the descriptor is not in the blob directory')
-                    ok_ref = ok_real = False
-                    continue
-                if len(raw) != ln:
-                    bad('blob-length', f'data blob {i}: descriptor length {ln}, file has {len(raw)} bytes')
-                if len(raw) > bound:
-                    bad('blob-too-big', f'data blob {i} has {len(raw)} bytes > {bound}')
-                if sha384(raw) != bh:
-                    bad('blob-hash', f'data blob {i}: descriptor blob_hash is not the SHA-384 of the ciphertext')
-                try:
-                    plain_ref.append(ref.decrypt_blob(key_bytes, bytes.fromhex(b['iv']), raw))
-                except ValueError as e:
-                    bad('ref-decrypt-fails', f'data blob {i} is not AES-128-CBC/PKCS7 under the descriptor key/iv: {e}')
-                    ok_ref = False
-                try:
-                    bf = BlobFile(loop, bh, ln, blob_directory=blob_dir)
-                    try:
-                        plain_real.append(StreamDownloader.decrypt_blob(stub, infos[i], bf))
-                    finally:
-                        bf.close()
-                except Exception as e:   # noqa
-                    bad('real-decrypt-raises', f'data blob {i}: real decrypt path raised {type(e).__name__}',
-                        exc=type(e).__name__)
-                    ok_real = False
-            if ok_ref and b''.join(plain_ref) != data:
-                bad('roundtrip-reference', 'reference decryption of the blobs in descriptor order != file bytes')
-            if ok_real and b''.join(plain_real) != data:
-                bad('roundtrip-real', 'real decryption of the blobs in descriptor order != file bytes')
-            extra = set(on_disk) - {b.get('blob_hash') for b in blobs} - {sd_hash}
-            if extra:
-                obs['extra_files'] = len(extra)
-
-            # ---- suggested file name of the published / loaded stream -----------------------
-            for label, s in (('descriptor', desc.suggested_file_name),
-                             ('loaded', loaded.suggested_file_name if loaded is not None else desc.suggested_file_name)):
-                bc = bad_name_chars(s)
-                if bc or not s:
-                    bad('suggested-name', f'{label} suggested_file_name {s!r} is empty or contains {bc}',
-                        chars=''.join(char_class(c) for c in bc) or 'empty')
-            if loaded is not None:
-                ms = types.SimpleNamespace(descriptor=loaded, stream_claim_info=None)
-                s = ManagedStream.suggested_file_name.fget(ms)
-                bc = bad_name_chars(s)
-                if bc or not s:
-                    bad('suggested-name', f'ManagedStream.suggested_file_name {s!r} is empty or contains {bc}',
-                        chars=''.join(char_class(c) for c in bc) or 'empty')
-                obs['suggested'] = s
-
-            # ---- interpretation-only comparisons with the reference publisher ---------------
-            t = []
-            if key is not None and decoded['key'] != key.hex():
-                t.append('descriptor_key_differs_from_argument')
-            if ivgen is not None and [b['iv'] for b in blobs] != [iv.hex() for iv in given_ivs]:
-                t.append('descriptor_ivs_differ_from_generator_output')
-            if [b['length'] for b in blobs[:-1]] != [ref.padded_len(len(c)) for c in ref_chunks]:
-                t.append('chunking_differs_from_reference')
-            try:
-                m, _ = ref.publish(data, name, bytes.fromhex(decoded['suggested_file_name']).decode(), key_bytes,
-                                   [bytes.fromhex(b['iv']) for b in blobs], bound)
-                if ref.serialize_manifest(m) != sd_bytes:
-                    t.append('sd_blob_differs_from_reference_serialisation')
-            except ValueError:
-                t.append('reference_publisher_failed')
-            obs['tallies'] = t
-            return problems, obs
+            return inspect_published(dict(loop=loop, desc=desc, blob_dir=blob_dir, bound=bound, data=data, name=name,
+                                          key=key, ivgen=ivgen, given_ivs=given_ivs, ref_chunks=ref_chunks,
+                                          problems=problems, obs=obs), bad)
+    except Exception as e:   # noqa
+        if not raised_inside_lbry(e):
+            raise
+        bad('descriptor-api-raises', f'{type(e).__name__} out of lbry code while reading the published stream back: '
+                                     f'{str(e)[:60]}', exc=type(e).__name__)
+        return problems, obs
     finally:
         loop.shutdown()
         shutil.rmtree(work, ignore_errors=True)
+
+
+def raised_inside_lbry(exc):
+    import lbry
+    root = os.path.dirname(os.path.realpath(lbry.__file__)) + os.sep
+    tb = exc.__traceback__
+    while tb is not None:       # did the exception pass through a frame of the code under test?
+        if os.path.realpath(tb.tb_frame.f_code.co_filename).startswith(root):
+            return True
+        tb = tb.tb_next
+    return False
+
+
+def inspect_published(env, bad):
+    """Second half of publish_case: everything the oracle reads after create_stream returned."""
+    import types
+    from refs import stream_ref as ref
+    from lbry.stream.descriptor import StreamDescriptor
+    from lbry.stream.downloader import StreamDownloader
+    from lbry.stream.managed_stream import ManagedStream
+    from lbry.blob.blob_file import BlobFile
+    loop, desc, blob_dir, bound, data, name, key, ivgen, given_ivs, ref_chunks, problems, obs = (
+        env[k] for k in ('loop', 'desc', 'blob_dir', 'bound', 'data', 'name', 'key', 'ivgen', 'given_ivs', 'ref_chunks',
+                         'problems', 'obs'))
+    if loop.pop_exceptions():
+        obs['loop_exceptions'] = True
+
+    # ---- what is on disk -----------------------------------------------------------
+    on_disk = {}
+    for fn in sorted(os.listdir(blob_dir)):
+        with open(os.path.join(blob_dir, fn), 'rb') as f:
+            on_disk[fn] = f.read()
+    for fn, raw in on_disk.items():
+        if sha384(raw) != fn:
+            bad('blob-name', f'file {fn[:12]}.. in the blob directory is not named by the SHA-384 of its bytes')
+    sd_hash = desc.sd_hash
+    obs['sd_hash'] = sd_hash
+    if not isinstance(sd_hash, str) or sd_hash not in on_disk:
+        bad('sd-blob-missing', f'no blob file for sd_hash {str(sd_hash)[:12]}..')
+        return problems, obs
+    sd_bytes = on_disk[sd_hash]
+    if ref.sd_hash(sd_bytes) != sd_hash:
+        bad('sd-hash', 'descriptor.sd_hash is not the SHA-384 of the sd blob bytes')
+    why = ref.inconsistencies(sd_bytes, lenient=False)
+    for w in why:
+        bad('descriptor-inconsistent', f'published sd blob is inconsistent: {w}', reason=reason_class(w))
+    try:
+        ref.normal_form(ref.parse_manifest(sd_bytes), lenient=False)
+    except ref.Malformed:
+        return problems, obs
+    decoded = ref.parse_manifest(sd_bytes)
+    if decoded['stream_hash'] != desc.stream_hash:
+        bad('stream-hash', 'descriptor.stream_hash differs from the stream_hash inside the sd blob')
+    if ref.stream_hash_of(decoded) != desc.stream_hash:
+        bad('stream-hash', 'descriptor.stream_hash is not the reference hash of the sd blob content')
+    if desc.calculate_sd_hash() != sd_hash:
+        bad('sd-hash', 'calculate_sd_hash() differs from sd_hash')
+    name_differs = False
+    try:
+        name_differs = bytes.fromhex(decoded['stream_name']).decode() != name
+    except ValueError:
+        name_differs = True
+    blobs = decoded['blobs']
+    nblobs = len(blobs) - 1
+    obs['nblobs'] = nblobs
+    obs['lengths'] = [b['length'] for b in blobs]
+    if nblobs < 1:
+        bad('no-data-blob', 'non-empty file published without a data blob')
+    # in-memory descriptor == sd blob content
+    mem = [b.as_dict() for b in desc.blobs]
+    if mem != blobs:
+        bad('descriptor-object-differs', 'in-memory descriptor blobs differ from the sd blob content')
+
+    # ---- load it back with the real loader ----------------------------------------
+    sd_blob = BlobFile(loop, sd_hash, len(sd_bytes), blob_directory=blob_dir)
+    try:
+        loaded = loop.run(StreamDescriptor.from_stream_descriptor_blob(loop, blob_dir, sd_blob))
+    except Exception as e:   # noqa
+        bad('valid-descriptor-refused', f'loader refused the just published descriptor: {type(e).__name__}',
+            exc=type(e).__name__)
+        loaded = None
+    finally:
+        sd_blob.close()
+    if loaded is not None:
+        if (loaded.key, loaded.stream_hash, loaded.sd_hash, [b.as_dict() for b in loaded.blobs]) != \
+                (decoded['key'], decoded['stream_hash'], sd_hash, blobs):
+            bad('loaded-descriptor-differs', 'loaded descriptor differs from the sd blob content')
+        name_differs = name_differs or loaded.stream_name != name
+
+    # ---- data blobs in descriptor order --------------------------------------------
+    try:
+        key_bytes = bytes.fromhex(decoded['key'])
+    except ValueError:
+        bad('key-encoding', 'key in sd blob is not hex')
+        return problems, obs
+    stub = types.SimpleNamespace(descriptor=loaded if loaded is not None else desc)
+    infos = (loaded if loaded is not None else desc).blobs
+    plain_ref, plain_real = [], []
+    ok_ref = ok_real = True
+    for i, b in enumerate(blobs[:-1]):
+        bh, ln = b['blob_hash'], b['length']
+        raw = on_disk.get(bh)
+        if raw is None:
+            bad('blob-missing', f'data blob {i} named in the descriptor is not in the blob directory')
+            ok_ref = ok_real = False
+            continue
+        if len(raw) != ln:
+            bad('blob-length', f'data blob {i}: descriptor length {ln}, file has {len(raw)} bytes')
+        if len(raw) > bound:
+            bad('blob-too-big', f'data blob {i} has {len(raw)} bytes > {bound}')
+        if sha384(raw) != bh:
+            bad('blob-hash', f'data blob {i}: descriptor blob_hash is not the SHA-384 of the ciphertext')
+        try:
+            plain_ref.append(ref.decrypt_blob(key_bytes, bytes.fromhex(b['iv']), raw))
+        except ValueError as e:
+            bad('ref-decrypt-fails', f'data blob {i} is not AES-128-CBC/PKCS7 under the descriptor key/iv: {e}')
+            ok_ref = False
+        try:
+            bf = BlobFile(loop, bh, ln, blob_directory=blob_dir)
+            try:
+                plain_real.append(StreamDownloader.decrypt_blob(stub, infos[i], bf))
+            finally:
+                bf.close()
+        except Exception as e:   # noqa
+            bad('real-decrypt-raises', f'data blob {i}: real decrypt path raised {type(e).__name__}',
+                exc=type(e).__name__)
+            ok_real = False
+    if ok_ref and b''.join(plain_ref) != data:
+        bad('roundtrip-reference', 'reference decryption of the blobs in descriptor order != file bytes')
+    if ok_real and b''.join(plain_real) != data:
+        bad('roundtrip-real', 'real decryption of the blobs in descriptor order != file bytes')
+    extra = set(on_disk) - {b.get('blob_hash') for b in blobs} - {sd_hash}
+    if extra:
+        obs['extra_files'] = len(extra)
+
+    # ---- suggested file name of the published / loaded stream -----------------------
+    for label, s in (('descriptor', desc.suggested_file_name),
+                     ('loaded', loaded.suggested_file_name if loaded is not None else desc.suggested_file_name)):
+        bc = bad_name_chars(s)
+        if bc or not s:
+            bad('suggested-name', f'{label} suggested_file_name {s!r} is empty or contains {bc}',
+                chars=''.join(char_class(c) for c in bc) or 'empty')
+    if loaded is not None:
+        claim = types.SimpleNamespace(claim=types.SimpleNamespace(stream=types.SimpleNamespace(
+            source=types.SimpleNamespace(name=name))))
+        ms = types.SimpleNamespace(descriptor=loaded, stream_claim_info=claim)
+        s = ManagedStream.suggested_file_name.fget(ms)
+        bc = bad_name_chars(s)
+        if bc or not s:
+            bad('suggested-name', f'ManagedStream.suggested_file_name {s!r} is empty or contains {bc}',
+                chars=''.join(char_class(c) for c in bc) or 'empty')
+        obs['suggested'] = s
+
+    # ---- interpretation-only comparisons with the reference publisher ---------------
+    t = []
+    if name_differs:
+        t.append('stream_name_is_not_the_published_file_name')
+    if key is not None and decoded['key'] != key.hex():
+        t.append('descriptor_key_differs_from_argument')
+    if ivgen is not None and [b['iv'] for b in blobs] != [iv.hex() for iv in given_ivs]:
+        t.append('descriptor_ivs_differ_from_generator_output')
+    if [b['length'] for b in blobs[:-1]] != [ref.padded_len(len(c)) for c in ref_chunks]:
+        t.append('chunking_differs_from_reference')
+    if 'chunking_differs_from_reference' not in t:
+        try:
+            m, _ = ref.publish(data, name, bytes.fromhex(decoded['suggested_file_name']).decode(), key_bytes,
+                               [bytes.fromhex(b['iv']) for b in blobs], bound)
+            if ref.serialize_manifest(m) != sd_bytes:
+                t.append('sd_blob_differs_from_reference_serialisation')
+        except (ValueError, StopIteration):
+            t.append('reference_publisher_failed')
+    obs['tallies'] = t
+    return problems, obs
 
 
 def account_publish(case, problems, obs, res):
@@ -420,7 +469,7 @@ def account_publish(case, problems, obs, res):
         res.witness('aes_block_aligned_file_size')
     if last == 1 and n >= 2:
         res.witness('one_byte_more_than_full_blobs')
-    if case['gen'] == 'zero' and n >= 2 and case['pattern'] in ('zero', 'ff'):
+    if case['gen'] == 'zero' and n >= 2 and case['pattern'] in ('zero', 'ff', 'chunk-periodic'):
         res.witness('identical_chunks_under_identical_iv_published')
     if case['gen'] == 'default':
         res.witness('default_key_iv_path')
@@ -446,8 +495,9 @@ def work_publish(item, res):
             if (sorted(json.dumps(s, sort_keys=True) for s, _ in p2), o2.get('sd_hash'), o2.get('lengths')) != \
                     (sorted(json.dumps(s, sort_keys=True) for s, _ in problems), obs.get('sd_hash'), obs.get('lengths')):
                 raise RuntimeError(f'non-deterministic execution for {case}')
-        if M is None and first is not None:
-            res.sample({'part': 'a', 'case': first[0], 'lengths': first[2].get('lengths'), 'sd_hash': first[2].get('sd_hash')})
+        if first is not None and (pattern, gen) == ('counter', 'counter') and (M is None or sizes[-1] == 3 * (M - 1) + 2):
+            c, _, o = lastc
+            res.sample({'part': 'a', 'case': c, 'blob_lengths': o.get('lengths'), 'sd_hash': o.get('sd_hash')})
     finally:
         shutil.rmtree(scratch, ignore_errors=True)
 
@@ -473,12 +523,26 @@ def work_publish_names(item, res):
 # ------------------------------------------------------------------------------------------------
 # (b) tamperings
 
-BASE_SIZES = {1: 10, 2: 70, 3: 150}        # file sizes that give 1, 2, 3 data blobs at M = 64
+BASE_SIZES = {1: 10, 2: 70, 3: 150, 4: 200}        # file sizes that give 1..4 data blobs at M = 64
 BASE_NAME = 'tamper me.bin'
 
 
-def make_base(nblobs, scratch, seed=0):
-    """Publish a valid descriptor with the real code; -> sd blob bytes."""
+def make_base(nblobs, seed=0):
+    """A valid descriptor with `nblobs` data blobs, built by the *reference* publisher (so that part (b)
+    judges the loader alone, whatever the real publisher does); -> sd blob bytes."""
+    from refs import stream_ref as ref
+    key, ivgen = make_gen('counter', seed)
+    m, _ = ref.publish(content('counter', BASE_SIZES[nblobs]), BASE_NAME, BASE_NAME, key, ivgen, SCALED_M)
+    if len(m['blobs']) != nblobs + 1:
+        raise RuntimeError('base descriptor does not have the intended number of blobs')
+    sd = ref.serialize_manifest(m)
+    if ref.inconsistencies(sd, lenient=False):
+        raise RuntimeError('reference publisher produced an inconsistent descriptor')
+    return sd
+
+
+def real_base(nblobs, scratch, seed=0):
+    """The same stream published by the real code; -> sd blob bytes or None (compared with make_base)."""
     from vf.vloop import VLoop
     from lbry.stream.descriptor import StreamDescriptor
     work = os.path.join(scratch, 'base')
@@ -493,14 +557,12 @@ def make_base(nblobs, scratch, seed=0):
             desc = loop.run(StreamDescriptor.create_stream(loop, os.path.join(work, 'blobs'), fp, key=key,
                                                            iv_generator=ivgen))
         with open(os.path.join(work, 'blobs', desc.sd_hash), 'rb') as f:
-            sd = f.read()
+            return f.read()
+    except Exception:   # noqa - part (a) reports publisher failures; here it is only a comparison
+        return None
     finally:
         loop.shutdown()
         shutil.rmtree(work, ignore_errors=True)
-    d = json.loads(sd)
-    if len(d['blobs']) != nblobs + 1:
-        raise RuntimeError('base descriptor does not have the intended number of blobs')
-    return sd
 
 
 def dumps(d):
@@ -557,12 +619,17 @@ def T(op, field, blob, detail, data, must=None, recomputed=False):
             'recomputed': recomputed}
 
 
-def tamper_chars(base, which):
-    """every single-character change / deletion / duplication in one committed string field"""
+def tamper_chars(base, which, wide=False):
+    """every single-character change / deletion / duplication in one committed string field; replacement
+    characters: every other hex digit and one non-hex letter (wide: every other printable ASCII character,
+    NUL and a non-ASCII letter)"""
     field, blob, path = which
     s = dget(base, path)
+    alphabet = list(HEXDIGITS) + ['g']
+    if wide:
+        alphabet = [chr(i) for i in range(0x20, 0x7f)] + ['\x00', '\xe9']
     for p, ch in enumerate(s):
-        for c in [x for x in HEXDIGITS if x != ch.lower()] + ['g']:
+        for c in [x for x in alphabet if x.lower() != ch.lower()]:
             d = clone(base)
             dset(d, path, s[:p] + c + s[p + 1:])
             yield T('char-change', field, blob, f'pos {p}: {ch!r}->{c!r}', dumps(d), must=True)
@@ -822,12 +889,17 @@ def work_tamper(item, res):
     _, nblobs, family, arg, seed = item
     scratch = scratch_dir('c02')
     try:
-        sd = make_base(nblobs, scratch, seed)
+        sd = make_base(nblobs, seed)
         base = json.loads(sd)
+        same_as_real = real_base(nblobs, scratch, seed) == sd
+        if same_as_real:
+            res.witness('reference_built_descriptor_equals_real_publisher_output')
+        else:
+            res.tally('interpretation_only:reference_built_descriptor_differs_from_real_publisher_output')
         blob_dir = os.path.join(scratch, 'load')
         os.makedirs(blob_dir)
         if family == 'chars':
-            ts = tamper_chars(base, string_fields(base)[arg])
+            ts = tamper_chars(base, string_fields(base)[arg[0]], wide=arg[1])
         elif family == 'ints':
             ts = tamper_ints(base)
         elif family == 'fields':
@@ -844,6 +916,8 @@ def work_tamper(item, res):
                 raise RuntimeError(f'reference rejects the untampered descriptor: {reasons}')
             if outcome == 'accepted':
                 res.witness('untampered_descriptor_accepted')
+            elif not same_as_real:
+                res.tally('reference_built_descriptor_refused_by_loader')
             else:
                 res.violation({'part': 'b', 'kind': 'valid-descriptor-refused', 'exc': outcome},
                               f'loader refused the untampered {nblobs}-data-blob descriptor ({outcome})',
@@ -855,7 +929,8 @@ def work_tamper(item, res):
                 reasons, outcome = judge_tamper(t, loop, blob_dir)
                 account_tamper(nblobs, t, reasons, outcome, res)
                 n += 1
-                if n == 1 or (family == 'structure' and t['recomputed'] and n % 7 == 0):
+                if (n == 1 and family in ('ints', 'truncate', 'bitflip')) or \
+                        (family == 'structure' and t['recomputed'] and reasons and n % 40 == 0):
                     res.sample({'part': 'b', 'data_blobs': nblobs, 'op': t['op'], 'field': t['field'],
                                 'detail': t['detail'], 'reference': reasons, 'loader': outcome})
             if loop.pop_exceptions():
@@ -891,7 +966,7 @@ def check_name(s, paths, res):
     res.count('c_names')
     shape = ''.join(char_class(c) for c in s)
     if shape.strip('a'):
-        res.distinct_add('nontrivial', ('c', shape if len(s) <= 5 else s))
+        res.distinct_add('nontrivial', ('c', shape if len(s) <= 12 else s))
     first = None
     for label, fn in paths:
         try:
@@ -904,9 +979,8 @@ def check_name(s, paths, res):
                           {'part': 'c', 'name': s})
             continue
         bc = bad_name_chars(r)
-        if bc or not r:
-            res.violation({'part': 'c', 'kind': 'unsafe-suggested-name', 'path': label,
-                           'chars': ''.join(sorted({char_class(c) for c in bc})) or 'empty'},
+        for cc in sorted({char_class(c) for c in bc}) or ([] if r else ['empty']):
+            res.violation({'part': 'c', 'kind': 'unsafe-suggested-name', 'path': label, 'chars': cc},
                           f'{label}({s!r}) = {r!r}: ' + ('empty' if not r else f'contains {bc}'),
                           {'part': 'c', 'name': s})
         if first is None:
@@ -929,17 +1003,20 @@ def work_names(item, res):
     kind = item[1]
     paths = name_paths()
     if kind == 'prefix':
-        _, _, first, maxlen = item
-        for ln in range(0, maxlen):
+        _, _, prefix, maxtail = item
+        for ln in range(0, maxtail + 1):
             for tail in itertools.product(NAME_ALPHABET, repeat=ln):
-                check_name(first + ''.join(tail), paths, res)
+                check_name(prefix + ''.join(tail), paths, res)
+    elif kind == 'short':
+        for a in NAME_ALPHABET:
+            check_name(a, paths, res)
     elif kind == 'special':
         check_name('', paths, res)
         for nm in DOS_NAMES:
             for variant in (nm, nm.lower(), nm.capitalize()):
                 for dec in DOS_DECOR:
                     check_name(dec.format(variant, variant) if dec.count('{}') == 2 else dec.format(variant), paths, res)
-        for nm in PUBLISH_NAMES + ['a' * 300 + '.txt', 'a.' + 'b' * 300, '‮ x', '﻿x.txt', 'a\r\nb.txt',
+        for nm in PUBLISH_NAMES + ['a' * 300 + '.txt', 'a.' + 'b' * 300, '\u202e x', '\ufeffx.txt', 'a\r\nb.txt',
                                    'COM0', 'LPT10', 'CONIN$', 'a/../../etc/passwd', '..\\..\\x', '\x00' * 8, '/' * 8]:
             check_name(nm, paths, res)
         res.sample({'part': 'c', 'name': 'a/../../etc/passwd', 'sanitized': paths[0][1]('a/../../etc/passwd')})
@@ -955,6 +1032,55 @@ def chunks(seq, n):
     return [seq[i:i + n] for i in range(0, len(seq), n)]
 
 
+def minimise(res):
+    """pmap merges in completion order; make the recorded counterexample of every part-(a) violation the
+    smallest file size (at the smallest scaled constant) that shows the same signature."""
+    from vf.bootstrap import scratch_dir
+    from vf.core import sig_key, Result
+    namev = {k: v for k, v in res.violations.items() if v['replay'].get('part') == 'c'}
+    if namev:
+        paths = name_paths()
+        left = set(namev)
+        for ln in range(0, 5):
+            for tup in itertools.product(NAME_ALPHABET, repeat=ln):
+                if not left:
+                    break
+                r = Result()
+                check_name(''.join(tup), paths, r)
+                for k in left & set(r.violations):
+                    namev[k]['replay'], namev[k]['what'] = r.violations[k]['replay'], r.violations[k]['what']
+                    left.discard(k)
+    todo = [(k, v) for k, v in res.violations.items() if v['replay'].get('part') == 'a']
+    if not todo:
+        return
+    scratch = scratch_dir('c02m')
+    try:
+        for k, v in todo:
+            case = dict(v['replay']['case'])
+            if case['M'] is None:
+                continue
+            found = False
+            variants = [(p, g) for p in PATTERNS + EXTRA_PATTERNS for g in GENS + ('default',)] \
+                if case['name'] == 'f.bin' else [(case['pattern'], case['gen'])]
+            for m in sorted({16, case['M']}):
+                for size in range(1, (case['size'] if m == case['M'] else 4 * (m - 1) + 2) + 1):
+                    for pattern, gen in variants:
+                        c = dict(case, M=m, size=size, pattern=pattern, gen=gen)
+                        problems, _ = publish_case(c, scratch)
+                        hit = [w for sg, w in problems if sig_key(sg) == k]
+                        if hit:
+                            v['replay'] = {'part': 'a', 'case': c}
+                            v['what'] = hit[0]
+                            found = True
+                            break
+                    if found:
+                        break
+                if found:
+                    break
+    finally:
+        shutil.rmtree(scratch, ignore_errors=True)
+
+
 def run(ctx):
     from refs import stream_ref as ref
     ref.selftest()
@@ -964,50 +1090,60 @@ def run(ctx):
     M = TWO_MIB
 
     # ---- (a) ------------------------------------------------------------------------------
-    scaled = [SCALED_M] if quick else [16, 32, SCALED_M, 128]
+    scaled = [16, SCALED_M] if quick else [16, 32, 48, SCALED_M, 80, 96, 112, 128]
+    patterns = PATTERNS if quick else PATTERNS + EXTRA_PATTERNS
+    blobs_span = 3 if quick else 4
     items = []
     for m in scaled:
-        top = 3 * (m - 1) + 2 if (quick or m != 32) else 6 * (m - 1) + 2
-        for pattern in PATTERNS:
+        top = blobs_span * (m - 1) + 2
+        for pattern in patterns:
             for gen in GENS:
                 for part in chunks(range(1, top + 1), 48):
                     items.append(('publish', m, pattern, gen, part, 'f.bin', seed))
-        for part in chunks(range(1, 3 * (m - 1) + 3), 48):
+        for part in chunks(range(1, top + 1), 48):
             items.append(('publish', m, 'counter', 'default', part, 'f.bin', seed))
     real_sizes = [1, M - 1, M, 2 * (M - 1) + 1] if quick else \
-        [1, 15, 16, 17, M - 2, M - 1, M, M + 1, 2 * (M - 1), 2 * (M - 1) + 1]
+        [1, 15, 16, 17, M - 2, M - 1, M, M + 1, 2 * (M - 1), 2 * (M - 1) + 1, 3 * (M - 1), 3 * (M - 1) + 1]
     real_items = [('publish', None, pattern, gen, [size], 'f.bin', seed)
-                  for size in real_sizes for pattern in PATTERNS for gen in GENS]
-    ctx.pmap(work_publish, real_items + items)
-    ctx.pmap(work_publish_names, [('names', part, [1, SCALED_M - 1, SCALED_M], seed) for part in chunks(PUBLISH_NAMES, 6)])
+                  for size in real_sizes for pattern in patterns for gen in GENS + (('default',) if not quick else ())]
+    ctx.pmap(work_publish, items)
+    ctx.pmap(work_publish, real_items)
+    name_sizes = [1, SCALED_M - 1, SCALED_M]
+    ctx.pmap(work_publish_names, [('names', part, name_sizes, seed) for part in chunks(PUBLISH_NAMES, 3)])
 
     # ---- (b) ------------------------------------------------------------------------------
-    descs = [2] if quick else [1, 2, 3]
+    descs = [1, 2, 3] if quick else [1, 2, 3, 4]
     titems = []
     for nb in descs:
         nfields = 4 + 2 * nb + 1
-        titems += [('tamper', nb, 'chars', i, seed) for i in range(nfields)]
+        titems += [('tamper', nb, 'chars', (i, not quick), seed) for i in range(nfields)]
         titems += [('tamper', nb, fam, None, seed) for fam in ('ints', 'fields', 'structure', 'truncate', 'badbyte',
                                                                'bitflip', 'docs')]
     ctx.pmap(work_tamper, titems)
 
     # ---- (c) ------------------------------------------------------------------------------
-    L = 4 if quick else 5
-    ctx.pmap(work_names, [('names', 'prefix', a, L) for a in NAME_ALPHABET] + [('names', 'special')])
+    L = 4 if quick else 6
+    ctx.pmap(work_names, [('names', 'prefix', a + b, L - 2) for a in NAME_ALPHABET for b in NAME_ALPHABET]
+             + [('names', 'short'), ('names', 'special')])
+
+    minimise(ctx.res)
 
     ctx.meta.update(
         rule=('(a) every (M, file size, content pattern, key/IV generator): M in the scaled set with every size '
-              '1..3(M-1)+2 (thorough: also 1..6(M-1)+2 at M=32), patterns zero/counter/0xff, generators '
+              '1..3(M-1)+2 (thorough: 1..4(M-1)+2), patterns zero/counter/0xff (thorough: + chunk-periodic, SHA-256 '
+              'stream), generators '
               'all-zero key+IVs / fixed key+counter IVs / SHA-256 stream / default os.urandom seam (counter pattern '
               'only), the real 2 MiB constant at the listed boundary sizes, plus 24 hostile-but-legal published file '
               'names x 3 sizes; each is one complete publish+load+decrypt execution on the real code.  (b) every '
               'tampering produced by the operators {single character change to each other hex digit and to a '
-              'non-hex letter / case flip / deletion / doubling at every position of every committed string; every '
+              'non-hex letter (thorough: to every other printable ASCII character, NUL and U+00E9) / case flip / '
+              'deletion / doubling at every position of every committed string; every '
               'digit change, +-1, +16, negation, zero, oversize and retyping of every blob_num and length; removal '
               'and retyping of every field; blob entry swaps, duplicates, drops, renumberings, all terminator '
               'edits, zero-length data blobs - each with the original and with a reference-recomputed stream_hash; '
               'truncation at every byte; 0xff/0x80/0x00 at every byte; every single-bit flip; prefix/suffix garbage; '
-              'non-object documents} of a valid descriptor with D data blobs.  (c) every string of length <= L over '
+              'non-object documents} of a valid reference-built descriptor with D data blobs (identical to the real '
+              'publisher\'s output).  (c) every string of length <= L over '
               'the 12-symbol hostile alphabet, reserved DOS names x 3 casings x 24 decorations, and a list of '
               'special names, through three naming paths.  Distinct non-trivial = (a) distinct (M, data blob count, '
               'last chunk length mod 16, last chunk full, pattern, generator, name) classes; (b) distinct (D, operator, '
@@ -1035,7 +1171,8 @@ def run(ctx):
         ],
         expected_witnesses=['blob_of_exactly_max_size_scaled', 'blob_of_exactly_max_size_real_2MiB', 'multi_blob_stream',
                             'three_or_more_data_blobs', 'one_byte_more_than_full_blobs', 'default_key_iv_path',
-                            'untampered_descriptor_accepted', 'structural_tampering_with_recomputed_stream_hash_refused',
+                            'untampered_descriptor_accepted', 'reference_built_descriptor_equals_real_publisher_output',
+                            'structural_tampering_with_recomputed_stream_hash_refused',
                             'published_name_was_changed_by_sanitising', 'separators_and_controls_are_removed_not_kept'],
     )
 
